@@ -160,7 +160,7 @@ def run(tier, seed):
         if mode == 0:
             v = dlo + (rng.next() * 2**64 + rng.next()) % (dhi - dlo + 1)
         elif mode == 1:
-            b = rng.choice([V["min"], V["max"], -2**63, 2**63 - 1, 0, 2**64 - 1, 2**53, -2**53])
+            b = rng.choice([V["min"], V["max"], -2**63, 2**63 - 1, 0, 2**64 - 1, 2**53, -2**53, -2**64, 2**64, -2**64 + 2**52, 2**65, -2**127 + 1000])
             v = b + rng.below(2001) - 1000
         elif mode == 2:
             v = (rng.next() % 2**54) - 2**53
